@@ -102,6 +102,8 @@ def run(ck: vlib.Check):
             for mask in rng.sample(range(64), 6):
                 add("select", fi, mask, -1, None, None)
         add("reread", fi, 63, None, 2, 2, delay=True, seq=[-1, 1, -1, min(2, N), -1])
+        if fi < (3 if quick else 10):   # histories containing calls that raise (invalid sub-detector name)
+            add("reread", fi, 63, None, rng.choice([1, 1000]), None, seq=[-1, "bad", -1, 1, "bad", min(2, N), "bad", -1])
     for k in range(2 if quick else 8):
         group = rng.sample(range(nfiles), rng.choice([2, 3]))
         add("concat", None, rng.choice([63, 63, rng.randrange(1, 64)]), -1, rng.choice([1, 2, 10000]), rng.choice([1, None]), concat=group)
@@ -123,7 +125,7 @@ def run(ck: vlib.Check):
             back.append((ci, 0))
             continue
         w = files[m["fi"]][1]
-        seq = m["seq"] if m["seq"] is not None else [m["nb"]]
+        seq = [x for x in m["seq"] if x != "bad"] if m["seq"] is not None else [m["nb"]]
         for k, nb in enumerate(seq):
             orders = r.get("orders") or []
             order = orders[k] if k < len(orders) else []
@@ -214,7 +216,7 @@ def run(ck: vlib.Check):
             continue
         fl = full[fi]
         for k, v in enumerate(r["values"]):
-            nb = (m["seq"][k] if m["seq"] else m["nb"])
+            nb = ([x for x in m["seq"] if x != "bad"][k] if m["seq"] else m["nb"])
             if m["kind"] in ("batch",):
                 if v != fl:
                     viol("C04:batch/workers", f"arrays({desc}) differs from the default read at {first_diff(fl, v)}", c, fi)
